@@ -103,6 +103,12 @@ func Files(genpkg string, service *expr.ServiceExpr, userTypePkgs map[string][]s
 	}
 
 	for _, et := range errorTypes {
+		if _, ok := svc.errorTypeIDs[et.Type.ID()]; !ok {
+			// The type of an attribute of an error type is not an error:
+			// an Error method would for example change the way its
+			// values are formatted.
+			continue
+		}
 		// Don't override the section created for the error type
 		// declaration, make sure the key does not clash with existing
 		// type names, make it generated last.
